@@ -228,7 +228,7 @@ def lake_build(targets: Sequence[str], st: LeanStatus) -> None:
         st.broken = seen or ["lake build " + " ".join(targets)]
 
 
-_AX_RE = re.compile(r"'([^']+)' depends on axioms: \[([^\]]*)\]|'([^']+)' does not depend on any axioms", re.S)
+_AX_RE = re.compile(r"'(\S+)' depends on axioms: \[([^\]]*)\]|'(\S+)' does not depend on any axioms", re.S)
 
 
 def audit_axioms(prop: str, module: str, theorems: Sequence[str], st: LeanStatus) -> None:
